@@ -65,7 +65,7 @@ func (e *kvElection) validationLoop(ctx context.Context) {
 					e.cfg.Metrics.IncTokenValidationFailures(e.getMetricsLabels())
 				}
 				if consecutiveFailures >= maxFailures {
-					e.handleValidationFailure(err)
+					e.handleValidationFailure(ctx, err)
 					return
 				}
 				continue
@@ -83,7 +83,7 @@ func (e *kvElection) validationLoop(ctx context.Context) {
 				if e.cfg.Metrics != nil {
 					e.cfg.Metrics.IncTokenValidationFailures(e.getMetricsLabels())
 				}
-				e.handleValidationFailure(ErrTokenInvalid)
+				e.handleValidationFailure(ctx, ErrTokenInvalid)
 				return
 			}
 
@@ -98,7 +98,10 @@ func (e *kvElection) validationLoop(ctx context.Context) {
 	}
 }
 
-func (e *kvElection) handleValidationFailure(err error) {
+// handleValidationFailure demotes after a failed validation. term is the context
+// of the term the validation belongs to (the validation loop's), or nil for a
+// validation the application asked for (see demoteTerm).
+func (e *kvElection) handleValidationFailure(term context.Context, err error) {
 	log := e.getLogger()
 	log.Error("demoting_due_to_validation_failure",
 		append(e.logWithContext(e.ctx),
@@ -107,5 +110,5 @@ func (e *kvElection) handleValidationFailure(err error) {
 		)...,
 	)
 
-	e.demote("token_validation_failure")
+	e.demoteTerm(term, "token_validation_failure")
 }
